@@ -37,13 +37,65 @@ class UBytes:
         b = lift_int(sl.stop) if sl.stop is not None else self.h.nbytes
         return UBytes(self.h, a, b)
 
-    def decode(self, enc="utf-8", *a):
+    def decode(self, enc="utf-8", errors="strict", *a):
         h = self.h
         i = h.boundary_index(self.a)
         j = h.boundary_index(self.b)
         if i is None or j is None:
-            raise UnicodeDecodeError("utf-8", b"\xff", 0, 1, "invalid start byte")
-        return TStr.sub(i, j, h.nc) if True else None
+            if errors == "strict":
+                raise UnicodeDecodeError("utf-8", b"\xff", 0, 1, "invalid start byte")
+            if errors in ("replace", "ignore"):
+                return LossyText(h, end_aligned=j is not None, replace=errors == "replace")
+            raise symex.NotEncodable(f"bytes.decode(errors={errors!r})")
+        # aligned at both ends: the characters themselves (any 3-byte character may be U+FFFD in the text)
+        return AlignedText(h, i.as_long(), j.as_long())
+
+
+class AlignedText:
+    def __init__(self, h, i, j):
+        self.h, self.i, self.j = h, i, j
+
+    def sym_len(self):
+        return max(self.j - self.i, 0)
+
+    def __len__(self):
+        return max(self.j - self.i, 0)
+
+    def endswith(self, suf, *a):
+        if suf != "\ufffd":
+            raise symex.NotEncodable(f"endswith({suf!r}) on decoded text")
+        if self.j <= self.i:
+            return False
+        k = self.j - 1
+        b = z3.Bool(f"char{k}_is_fffd")
+        self.h.eng.add(z3.Implies(b, self.h.widths[k] == 3))
+        return self.h.eng.choose([b, z3.Not(b)]) == 0
+
+    def __bool__(self):
+        return self.j > self.i
+
+
+class LossyText:
+    """result of decoding a byte slice that cuts through a character with errors='replace'/'ignore'."""
+
+    def __init__(self, h, end_aligned, replace):
+        self.h, self.end_aligned, self.replace = h, end_aligned, replace
+        self.n = h.eng.fresh_int("lossy_len")
+        h.eng.add(self.n >= (1 if replace else 0))
+
+    def sym_len(self):
+        return SInt(self.n)
+
+    def endswith(self, suf, *a):
+        if suf == "\ufffd":
+            if self.replace and not self.end_aligned:
+                return True
+            b = self.h.eng.fresh_bool("lossy_ends_fffd")
+            return self.h.eng.choose([b, z3.Not(b)]) == 0
+        raise symex.NotEncodable(f"endswith({suf!r}) on a lossily decoded text")
+
+    def __bool__(self):
+        return bool(symex.mkbool(self.n > 0))
 
 
 class UText:
@@ -254,6 +306,7 @@ class FakePath:
         pass
 
     def __truediv__(self, o):
+        self.h.cache_names.append(str(o))
         return FakePath(self.h, self.name + "/" + str(o))
 
     def exists(self):
@@ -301,8 +354,19 @@ class HCache(common.Harness):
         tk = T.HyperscanTokenizer(extractors=ext, cache_dir="/nonexistent/cache" if self.use_cache else None)
         saved = sys.modules.get("hyperscan")
         sys.modules["hyperscan"] = fake_hyperscan(self)
+        self.cache_names = []
+        self.fingerprints = None
         try:
             db = self.interp.call(T.HyperscanTokenizer.hyperscan_db.fget, (tk,), {})
+            if self.use_cache and not self.cache_exists:
+                # cache key: the same patterns with other flags, or other patterns with the same flags, must not
+                # share a cache file
+                names = list(self.cache_names)
+                for variant in ([M.TokenExtractor("(a{,3})§?", M.IdToken.from_match, flags=2), M.TokenExtractor("(b)", M.IdToken.from_match, flags=2)], [M.TokenExtractor("(a{,3})§?", M.IdToken.from_match, flags=0), M.TokenExtractor("(c)", M.IdToken.from_match, flags=2)]):
+                    self.cache_names = []
+                    self.interp.call(T.HyperscanTokenizer.hyperscan_db.fget, (T.HyperscanTokenizer(extractors=variant, cache_dir="/nonexistent/cache"),), {})
+                    names += self.cache_names
+                self.fingerprints = names
         finally:
             if saved is not None:
                 sys.modules["hyperscan"] = saved
@@ -320,8 +384,11 @@ class HCache(common.Harness):
         if kind == "exc":
             return [self.check("C14:cache:no_exception:" + type(out).__name__, False, self.witness)]
         usable = out is not None and (getattr(out, "loaded", False) or getattr(out, "compiled", None) is not None)
-        # a database that was compiled because the cache was unusable is written back
-        return [self.check("C14:cache:returns_a_loaded_or_freshly_compiled_database", z3.BoolVal(bool(usable)), self.witness)]
+        fs = [self.check("C14:cache:returns_a_loaded_or_freshly_compiled_database", z3.BoolVal(bool(usable)), self.witness)]
+        if self.fingerprints is not None:
+            ok = len(self.fingerprints) == 3 and len(set(self.fingerprints)) == 3
+            fs.append(self.check("C14:cache:fingerprint_distinguishes_patterns_and_flags", z3.BoolVal(ok), lambda m: {"fingerprints": self.fingerprints, **self.witness(m)}))
+        return fs
 
 
 def make(params):
@@ -538,18 +605,19 @@ def check(rep):
     )
 
 
-def replay_offsets(w):
+def replay_offsets(w, fffd=False):
     """real extract_tokens with a fake database reporting the model's hits on a real text of those widths."""
     import eyecite.models as M
     import eyecite.tokenizers as T
 
-    chars = {1: "a", 2: "é", 3: "“", 4: "😀"}
+    chars = {1: "a", 2: "é", 3: "\ufffd" if fffd else "“", 4: "😀"}
     text = "".join(chars[x] for x in w["widths"])
     rem = list(w["rematch"])
 
     class FakeRegex:
         def match(self, s):
-            r = rem.pop(0) if rem else None
+            # answers recorded in the model; a hit the model never re-matched is confirmed in full
+            r = rem.pop(0) if rem else (0, len(s))
             if r is None:
                 return None
             import re
@@ -577,15 +645,47 @@ def replay_offsets(w):
     rem2 = list(w["rematch"])
     for s, e in w["hits"]:
         if s in bounds and e in bounds:
-            r = rem2.pop(0) if rem2 else None
+            r = rem2.pop(0) if rem2 else (0, bounds.index(e) - bounds.index(s))
             if r is not None:
                 cs = bounds.index(s)
                 want.append((cs + r[0], cs + r[1]))
     got = [(t.start, t.end) for t in toks]
-    return [] if got == want else [f"C14:offsets: tokens {got}, expected {want}"]
+    if got != want:
+        return [f"C14:offsets: tokens {got}, expected {want}"]
+    if not fffd:
+        # the same widths with U+FFFD as the 3-byte characters (a character like any other)
+        if 3 in w["widths"]:
+            return replay_offsets(w, fffd=True)
+    return []
+
+
+def replay_fingerprint():
+    """two tokenizers that differ only in flags share one cache directory: the second must not load the first's database."""
+    import re
+
+    import eyecite.models as M
+    import eyecite.tokenizers as T
+
+    d = tempfile.mkdtemp(prefix="vf_hsf_")
+    try:
+        a = [M.TokenExtractor(r"(id\.)", M.IdToken.from_match, flags=0)]
+        b = [M.TokenExtractor(r"(id\.)", M.IdToken.from_match, flags=re.I)]
+        text = "Id. and id."
+        list(T.HyperscanTokenizer(extractors=a, cache_dir=d).extract_tokens(text))
+        with_cache = token_sig(T.HyperscanTokenizer(extractors=b, cache_dir=d).extract_tokens(text))
+        without = token_sig(T.HyperscanTokenizer(extractors=b).extract_tokens(text))
+        if with_cache != without:
+            return f"tokens with a cache directory written for other flags {with_cache} differ from tokens without cache {without}"
+    finally:
+        import shutil
+
+        shutil.rmtree(d, ignore_errors=True)
+    return None
 
 
 def replay_cache(w):
+    if "fingerprints" in w:
+        return replay_fingerprint()
     """a real cache file whose version word is flipped makes loadb raise a non-Invalid hyperscan error."""
     import eyecite.models as M
     import eyecite.tokenizers as T
